@@ -284,10 +284,11 @@ class Project:
         self.inlined_helpers = 0
         try:
             from .canon import reference_table
-            from .inline import inline_new_helpers
+            from .inline import inline_new_helpers, inline_new_closures
             ref = reference_table()
             if ref:
                 self.inlined_helpers = inline_new_helpers(self, ref)
+                self.inlined_helpers += inline_new_closures(self, ref)
         except Exception as e:  # pragma: no cover - inlining is an aid, never a reason to fail
             self.parse_errors.append(f"helper inlining skipped: {e!r}")
         self._keywordise_calls()
